@@ -1506,6 +1506,8 @@ impl SourceBuf {
                     self.cat = ItemCat::LineFeed;
                     break;
                 }
+                // Inside a group a line feed is just white space.
+                self.has_space = true;
             }
             // Double quote: quoted token
             else if ch == b'"' {
